@@ -8,7 +8,7 @@ import vlib
 
 TOGGLES = ["FixRcvErrRelease"]
 FAULTS = ["finish", "fail", "abrupt", "reset", "half", "garbage", "junk", "oversized"]
-TRANSPORTS = ["tcp", "tls"]
+TRANSPORTS = ["tcp", "tls", "ws"]
 MOMENTS = ["idle", "midsend", "repeat"]
 MONITOR_CFG = ("SPECIFICATION Spec\nCONSTANTS\n  TraceFile = \"@TRACE@\"\n"
                "POSTCONDITION Consumed\nCHECK_DEADLOCK FALSE\n")
@@ -34,6 +34,8 @@ def run(tier, scratch, drv, only_cases=None):
         for rep in range(reps):
             for tr in TRANSPORTS:
                 for f in FAULTS:
+                    if tr == "ws" and f == "oversized":
+                        continue   # the websocket transport has no read limit: a large envelope is no fault there
                     for m in MOMENTS:
                         cases.append({"n": len(cases) + 1, "cfg": {"transport": tr, "fault": f, "moment": m,
                                                                    "seed": vlib.seed() * 10 + rep}})
